@@ -25,7 +25,7 @@ type SubConfig struct {
 	Config
 	PropSub string   // C07
 	Dirs    []string // chain of Sub arguments, outermost first ("d", "e" = Sub(Sub(fs,"d"),"e"))
-	Base    string   // mem | kvplain | oshp | openonly | mntat | mntabove
+	Base    string   // mem | kvplain | oshp | openonly | mntat | mntabove | mntnested | mntatnested
 }
 
 type SubAdapter struct{ Cfg SubConfig }
@@ -70,7 +70,7 @@ func (a *SubAdapter) mkBase() (*subBase, error) {
 			return nil, err
 		}
 		b.top, b.setup, b.cleanup = fs, fs, func() { _ = os.RemoveAll(tmp) }
-	case "mntat", "mntabove", "mntnested":
+	case "mntat", "mntabove", "mntnested", "mntatnested":
 		root, _ := mem.NewFS()
 		mfs, _ := mount.NewFS(root)
 		point := dir // the Sub directory is itself a mount point
@@ -104,6 +104,16 @@ func (a *SubAdapter) mkBase() (*subBase, error) {
 		inner, _ := mem.NewFS()
 		if err := mfs.AddMount(point, inner); err != nil {
 			return nil, err
+		}
+		if a.Cfg.Base == "mntatnested" {
+			// the Sub directory is a mount point, and a second file system is mounted below it
+			if err := hackpadfs.MkdirAll(mfs, dir+"/a", 0755); err != nil {
+				return nil, err
+			}
+			below, _ := mem.NewFS()
+			if err := mfs.AddMount(dir+"/a", below); err != nil {
+				return nil, err
+			}
 		}
 		b.top, b.setup = mfs, mfs
 	default:
